@@ -12,7 +12,8 @@
  *  - poll: returns 1 when the condition holds (possibly after the pending environment action fired),
  *    -1/EINTR after advancing the clock by <= timeout, 0 after advancing it by exactly timeout; with a
  *    negative timeout and a condition that never becomes true the call never returns (path pruned);
- *  - close: releases an open descriptor and returns 0, otherwise -1/EBADF;
+ *  - close: releases an open descriptor and returns 0, otherwise -1/EBADF; a stream closed with SO_LINGER {on, 0}
+ *    is aborted (queued data toward the peer dropped, peer sees ECONNRESET), any other close is graceful;
  *  - a write to a stream whose peer is gone / that was shut down for writing fails with EPIPE and
  *    would raise SIGPIPE unless MSG_NOSIGNAL is passed or the disposition is SIG_IGN. */
 #include "verif.h"
@@ -189,6 +190,12 @@ int vm_getsockopt(int fd, int level, int opt, void *val, socklen_t *len) { VS_DI
 static int vsi_setsockopt(const int i, int level, int opt, const void *val, socklen_t len) {
   if (vs_sysfail()) return vs_fail(ENOBUFS);
   if (level != SOL_SOCKET || len < sizeof(int)) return vs_fail(EINVAL);
+  if (opt == SO_LINGER) {
+    if (len < sizeof(struct linger)) return vs_fail(EINVAL);
+    vfd_linger_on[i] = ((const struct linger *) val)->l_onoff != 0;
+    vfd_linger_secs[i] = ((const struct linger *) val)->l_linger;
+    return 0;
+  }
   int v = *(const int *) val;
   if (opt == SO_KEEPALIVE) vfd_keepalive[i] = v != 0;
   else if (opt == SO_REUSEADDR) vfd_reuse[i] = v != 0;
@@ -475,6 +482,7 @@ static ssize_t vsi_recv(const int i, void *b, size_t n, int flags, struct sockad
     if (vfd_listening[i] || (!vfd_connected[i] && !vfd_peer_eof[i])) return vs_fail(ENOTCONN);
     if (l != NULL) *l = 0;               /* stream sockets do not report a source address */
     if (vfd_rx_len[i] == 0) {
+      if (vfd_reset[i]) return vs_fail(ECONNRESET);
       if (vfd_peer_eof[i] || vfd_shut_rd[i]) return 0;
       if (vfd_peer_gone[i]) return vs_fail(ECONNRESET);
       if (!vfd_nonblock[i]) VASSUME(0);
@@ -591,7 +599,16 @@ int vm_shutdown(int fd, int how) { VS_DISPATCH(fd, vsi_shutdown(i_, how)); }
 static int vsi_close(const int i) {
   vfd_open[i] = 0; vfd_closes[i]++; vs.nclose++;
   if (vfd_type[i] == SOCK_STREAM) {
-    if (vfd_peer[i] >= 0) { vfd_peer_eof[vfd_peer[i]] = 1; vfd_peer_gone[vfd_peer[i]] = 1; }
+    /* SO_LINGER on with l_linger 0 = abortive close: what this end sent and the peer has not read yet is
+     * discarded and the connection is reset (the peer's next recv fails with ECONNRESET); otherwise the
+     * close is graceful: queued data stays deliverable and is followed by end-of-stream */
+    for (int p = 0; p < VS_NFD; p++) if (vfd_peer[i] == p) {
+      if (vfd_linger_on[i] && vfd_linger_secs[i] == 0) {
+        for (int x = 0; x < VS_CAP; x++) vfd_rx[p][x] = 0;
+        vfd_rx_len[p] = 0; vfd_reset[p] = 1;
+      } else vfd_peer_eof[p] = 1;
+      vfd_peer_gone[p] = 1;
+    }
     for (int k = 0; k < VS_PEND; k++)
       if (k < vfd_npend[i]) { int c = vfd_peer[vfd_pend[i][k]]; vfd_embryo[vfd_pend[i][k]] = 0; if (c >= 0) { vfd_peer_eof[c] = 1; vfd_peer_gone[c] = 1; } }
     vfd_npend[i] = 0; vfd_listening[i] = 0;
